@@ -55,6 +55,7 @@ type SpecKnobs struct {
 	PlainMinimal   bool // minimal preset untouched except fork epochs
 	AllForksInside bool // force all four fork epochs < Epochs-1
 	ForkBias       string // "late": forks at the last four possible epochs; "early": 1,2,3,4
+	ShortSlashings bool // EPOCHS_PER_SLASHINGS_VECTOR 4, MIN_VALIDATOR_WITHDRAWABILITY_DELAY 1: slashed validators become withdrawable within the chain
 	FastEth1       bool // EPOCHS_PER_ETH1_VOTING_PERIOD 1
 	HugeRewards    bool // BASE_REWARD_FACTOR 2^14..2^16: a missed epoch costs a noticeable share of an increment
 	StrongPenalty  bool // large base reward / small inactivity quotients so balances move fast
@@ -77,6 +78,24 @@ func ForkSchedule(r *hx.Rng, k SpecKnobs) [4]uint64 {
 	var f [4]uint64
 	if k.ForkBias == "early" && hi >= 4 {
 		return [4]uint64{1, 2, 3, 4}
+	}
+	if k.ForkBias == "pair" && hi >= 4 {
+		// two consecutive forks at the same epoch
+		switch r.Intn(3) {
+		case 0:
+			return [4]uint64{1, 1, 2, 4}
+		case 1:
+			return [4]uint64{1, 2, 2, 4}
+		default:
+			return [4]uint64{1, 2, 3, 3}
+		}
+	}
+	if k.ForkBias == "triple" && hi >= 3 {
+		// three forks at the same epoch
+		if r.Bool() {
+			return [4]uint64{1, 1, 1, 3}
+		}
+		return [4]uint64{1, 2, 2, 2}
 	}
 	if k.ForkBias == "late" && hi >= 5 {
 		return [4]uint64{uint64(hi - 3), uint64(hi - 2), uint64(hi - 1), uint64(hi)}
@@ -199,6 +218,11 @@ func TinySpec(r *hx.Rng, k SpecKnobs) *common.Spec {
 	}
 	if k.FastEth1 {
 		sp.EPOCHS_PER_ETH1_VOTING_PERIOD = 1
+	}
+	if k.ShortSlashings {
+		sp.EPOCHS_PER_SLASHINGS_VECTOR = 4
+		sp.MIN_VALIDATOR_WITHDRAWABILITY_DELAY = 1
+		sp.MAX_SEED_LOOKAHEAD = common.Epoch(pick(r, 1, 2))
 	}
 	if k.HugeRewards {
 		sp.BASE_REWARD_FACTOR = view.Uint64View(pick(r, 16384, 32768, 65536))
